@@ -101,6 +101,7 @@ type c02Gen struct {
 	feat   map[string]int
 	fdepth int // function nesting depth
 	inWithFn bool
+	classDepth int
 	exclude  map[string]bool // names a parameter initialiser must not mention (later parameters of the same function)
 }
 
@@ -137,7 +138,11 @@ func (g *c02Gen) pickName(env *c02Env, avoidLocal bool) string {
 		var n string
 		switch {
 		case g.r.Chance(55):
+			// the renamer's own output alphabet in its frequency order: original names collide with generated ones
 			n = g.r.Pick(c02Short)
+			if g.r.Bool() {
+				n = c02Short[g.r.Intn(8)]
+			}
 		case g.r.Chance(60):
 			n = g.r.Pick(c02Long)
 		default:
@@ -165,7 +170,7 @@ func (g *c02Gen) freshName(env *c02Env) string {
 				break
 			}
 		}
-		if env.fn.vars[n] { // a lexical name equal to a var of the function: hoisting may collide (K-C02-5)
+		if env.fn.vars[n] && (env == env.fn || g.r.Bool()) { // a block may shadow a var of the function (hoisting, fixed K-C02-5)
 			conflict = true
 		}
 		if env.used[n] { // mentioned earlier as an outer variable
@@ -430,7 +435,7 @@ func (g *c02Gen) stmt(env *c02Env, depth int, fnTop bool) string {
 			return g.use(env)
 		}
 		n := g.r.Pick(c02Short) // single letter: hoisting decisions do not depend on KeepVarNames
-		if env.fn.lex[n] || env.fn.used[n] || env.used[n] {
+		if (env.fn.lex[n] && g.r.Bool()) || env.fn.used[n] || env.used[n] {
 			return g.use(env)
 		}
 		for s := env; s != nil; s = s.parent {
@@ -482,10 +487,21 @@ func (g *c02Gen) stmt(env *c02Env, depth int, fnTop bool) string {
 	case k < 52: // block
 		inner := newC02Env(env, false)
 		g.feat["block"]++
-		// a block never consists of declarations only (K-C02-7)
+		if g.r.Chance(15) { // declarations only, a later initialiser mentions an earlier name (fixed K-C02-7)
+			g.feat["letOnlyBlock"]++
+			a, b := g.freshName(inner), ""
+			g.declare(inner, a, "num", false)
+			b = g.freshName(inner)
+			return fmt.Sprintf("{let %s=%d;let %s=R(%d,%s)}", a, g.nextVal(), b, g.nextSite(), a)
+		}
 		return "{" + g.stmts(inner, depth-1, 1+g.r.Intn(4), false) + g.use(inner) + "}"
-	case k < 58: // if / else; no lexical declaration directly in a branch (else-flattening, K-C02-1)
+	case k < 58: // if / else
 		g.feat["if"]++
+		if g.fdepth > 0 && g.r.Chance(30) {
+			// consequent ends in return, the else block declares lexically: in function bodies, blocks, try/catch/finally
+			// and switch clauses alike (every scope whose statement list is optimised before it is renamed)
+			return g.flowElse(env, fmt.Sprintf("return %d", g.nextVal()))
+		}
 		a := "{" + g.use(newC02Env(env, false)) + g.nestedBlockOrUse(env, depth-1) + "}"
 		b := "{" + g.use(newC02Env(env, false)) + g.nestedBlockOrUse(env, depth-1) + "}"
 		if g.r.Chance(30) {
@@ -500,11 +516,20 @@ func (g *c02Gen) stmt(env *c02Env, depth int, fnTop bool) string {
 			v = g.freshName(inner)
 		}
 		g.feat["for"]++
-		switch g.r.Intn(3) {
+		switch g.r.Intn(4) {
+		case 3: // while (turned into for(;;) by the parser option WhileToFor)
+			blk := newC02Env(env, false)
+			k := g.freshName(blk)
+			g.declare(blk, k, "num", false)
+			inner = newC02Env(blk, false)
+			inner.mention(k) // the body must not redeclare the counter
+			body := g.stmts(inner, depth-1, 1+g.r.Intn(2), false) + g.loopFlow(inner)
+			g.feat["while"]++
+			return fmt.Sprintf("{let %s=0;while(%s<2){%s++;%s}}", k, k, k, body)
 		case 0:
 			g.declare(inner, v, "num", false)
 			if top && !g.opt.topDecls {
-				body := g.stmts(inner, depth-1, 1+g.r.Intn(3), false)
+				body := g.stmts(inner, depth-1, 1+g.r.Intn(3), false) + g.loopFlow(inner)
 				return fmt.Sprintf("for(let %s=0;%s<2;%s++){%s}", v, v, v, body)
 			}
 			g.declare(env, arr, "obj", true) // before the body: the body must not mention the array by a global's name
@@ -513,11 +538,11 @@ func (g *c02Gen) stmt(env *c02Env, depth int, fnTop bool) string {
 			return fmt.Sprintf("const %s=[];for(let %s=0;%s<2;%s++){%s%s.push(()=>R(%d,%s))}%s.forEach(%s=>%s());", arr, v, v, v, body, arr, g.nextSite(), v, arr, v, v)
 		case 1:
 			g.declare(inner, v, "num", true)
-			body := g.stmts(inner, depth-1, 1+g.r.Intn(3), false)
+			body := g.stmts(inner, depth-1, 1+g.r.Intn(3), false) + g.loopFlow(inner)
 			return fmt.Sprintf("for(const %s of [%d,%d]){%s}", v, g.nextVal(), g.nextVal(), body)
 		default:
 			g.declare(inner, v, "str", true)
-			body := g.stmts(inner, depth-1, 1+g.r.Intn(2), false)
+			body := g.stmts(inner, depth-1, 1+g.r.Intn(2), false) + g.loopFlow(inner)
 			p, q := g.pickName(env, false), g.pickName(env, false)
 			return fmt.Sprintf("for(const %s in {%s:1,%s_:2}){R(%d,%s);%s}", v, p, q, g.nextSite(), v, body)
 		}
@@ -565,7 +590,7 @@ func (g *c02Gen) stmt(env *c02Env, depth int, fnTop bool) string {
 	case k < 88: // functions
 		return g.function(env, depth, fnTop)
 	case k < 92: // class
-		if !g.opt.classes || g.inWithFn || (top && !g.opt.topDecls) {
+		if !g.opt.classes || (top && !g.opt.topDecls) {
 			return g.use(env)
 		}
 		return g.class(env, depth)
@@ -577,7 +602,7 @@ func (g *c02Gen) stmt(env *c02Env, depth int, fnTop bool) string {
 		g.declare(inner, v, "num", false)
 		return fmt.Sprintf("%s:for(let %s=0;%s<2;%s++){if(R(%d,%s))continue %s;%s}", l, v, v, v, g.nextSite(), v, l, g.use(inner))
 	case k < 98: // with (only where every enclosing scope keeps its names)
-		if !g.opt.with || g.fdepth != 1 || !g.inWithFn {
+		if !g.opt.with || g.fdepth < 1 || !g.inWithFn || g.classDepth > 0 {
 			return g.use(env)
 		}
 		g.feat["with"]++
@@ -619,6 +644,38 @@ func (g *c02Gen) stmt(env *c02Env, depth int, fnTop bool) string {
 	}
 }
 
+// flowElse: `if(c){…;continue|break|return}else{let N=…;…}` — the else block is merged into the surrounding statement
+// list by optimizeStmtList and its lexical bindings move into the surrounding scope (Scope.Unscope), which must happen
+// before that scope is renamed; N is drawn from the generated names so that a binding left un-renamed captures.
+func (g *c02Gen) flowElse(env *c02Env, flow string) string {
+	g.feat["flowElse:"+strings.Fields(flow)[0]]++
+	inner := newC02Env(env, false)
+	kw := "let"
+	if g.r.Chance(30) {
+		kw = "const"
+	}
+	n := g.freshName(inner)
+	init := g.excluding([]string{n}, func() string { return g.initExpr(inner) })
+	g.declare(inner, n, "num", kw == "const")
+	body := fmt.Sprintf("%s %s=%s;%s%s", kw, n, init, g.use(inner), g.use(inner))
+	if g.r.Chance(25) { // a second binding and a closure over the first
+		m := g.freshName(inner)
+		g.declare(inner, m, "num", false)
+		body += fmt.Sprintf("let %s=(()=>%s)();%s", m, n, g.use(inner))
+	}
+	if g.r.Chance(70) {
+		return fmt.Sprintf("if(R(%d,0)){%s%s}else{%s}%s", g.nextSite(), g.use(env), flow, body, g.use(env))
+	}
+	return fmt.Sprintf("if(!R(%d,1)){%s}else{%s%s}%s", g.nextSite(), body, g.use(env), flow, g.use(env))
+}
+
+func (g *c02Gen) loopFlow(env *c02Env) string {
+	if g.r.Chance(55) {
+		return g.flowElse(env, g.r.Pick([]string{"continue", "continue", "break"}))
+	}
+	return ""
+}
+
 func (g *c02Gen) nestedBlockOrUse(env *c02Env, depth int) string {
 	if depth > 0 && g.r.Chance(40) {
 		inner := newC02Env(env, false)
@@ -642,8 +699,9 @@ func (g *c02Gen) function(env *c02Env, depth int, fnTop bool) string {
 	defer func() { g.inWithFn = wasWith }()
 	if g.fdepth == 0 {
 		g.inWithFn = g.opt.with && g.r.Chance(50)
-	} else if g.fdepth >= 1 {
-		// nested functions never contain `with` themselves (their enclosing function may be renamed)
+	} else if g.classDepth == 0 {
+		// since fix f7bc618 a `with` may stand in a nested function: the enclosing functions keep their names
+		g.inWithFn = g.opt.with && g.r.Chance(30)
 	}
 	switch kind := g.r.Intn(5); {
 	case kind == 0 && fnTop && (!top || g.opt.topDecls): // declaration (function top level only)
@@ -696,6 +754,8 @@ func (g *c02Gen) function(env *c02Env, depth int, fnTop bool) string {
 
 func (g *c02Gen) class(env *c02Env, depth int) string {
 	g.feat["class"]++
+	g.classDepth++
+	defer func() { g.classDepth-- }()
 	name := g.freshName(env)
 	g.declare(env, name, "fn", false)
 	var sb strings.Builder
